@@ -77,7 +77,7 @@ func c08Grammar(o *propOpts, res *propResult) (stmts, ddls, dmls []string) {
 		res.eval(s.entry+"|"+s.text, len(s.toks) >= 4, func() any { return map[string]any{"entry": s.entry, "sentence": s.text, "production": s.prod} })
 		res.count("G:" + gNonTerminal(s.prod))
 		if d := gCheck(s); d != "" {
-			if key, why, ok := gKnown(s); ok {
+			if key, why, ok := gKnown(s, d); ok {
 				res.count("G-known")
 				res.fail("G-known:"+key, s.text, s.entry, d+" [known: "+why+"; production "+s.prod+"]")
 			} else {
